@@ -4,6 +4,7 @@ import (
 	"crypto/sha256"
 	"encoding/hex"
 	"fmt"
+	"math"
 	"math/rand"
 	"strings"
 
@@ -34,6 +35,8 @@ type chainFam struct {
 }
 
 func init() { families["chain"] = func() Family { return &chainFam{} } }
+
+func (f *chainFam) Reseed(r *rand.Rand) { f.rng = r }
 
 func (f *chainFam) Setup(cfg M, rng *rand.Rand) {
 	f.rng = rng
@@ -149,7 +152,11 @@ func (f *chainFam) deliver(m sdk.Msg) M {
 		return nil
 	}
 	r := f.c.Deliver([]sdk.Msg{m}, signer)
-	return M{"a": "tx", "t": sdk.MsgTypeURL(m), "code": int64(r.Code), "cs": r.Codespace, "gas": r.GasUsed, "ev": evDigest(r.Events), "ok": r.Code == 0}
+	ms := fmt.Sprint(m)
+	if len(ms) > 300 {
+		ms = ms[:300]
+	}
+	return M{"a": "tx", "t": sdk.MsgTypeURL(m), "code": int64(r.Code), "cs": r.Codespace, "gas": r.GasUsed, "ev": evDigest(r.Events), "ok": r.Code == 0, "x": M{"msg": ms}}
 }
 
 func (f *chainFam) Apply(st M) M {
@@ -177,6 +184,15 @@ func (f *chainFam) Apply(st M) M {
 		}
 		fillMsg(m, advPicker(f.rng, addrs, roots))
 		return f.deliver(m)
+	case "advfile": // boundary sizes / replication on a file that provers can then join
+		a := f.c.Acct([]string{"a", "b", "c"}[f.rng.Intn(3)])
+		t := f.files[f.rng.Intn(len(f.files))]
+		sizes := []int64{0, -1, 1, 3, 1 << 62, math.MinInt64, math.MaxInt64, math.MaxInt64, math.MaxInt64 - 7, math.MaxInt64/2 + 1, math.MaxInt64 / 3}
+		msg := &stypes.MsgPostFile{Creator: a.S(), Merkle: t.root, FileSize: sizes[f.rng.Intn(len(sizes))], MaxProofs: int64([]int{1, 1, 1, 2, 3, 0, -1}[f.rng.Intn(7)]), Note: "{}"}
+		if f.rng.Intn(4) == 0 {
+			msg.Expires = f.c.H + int64([]int{14400, 3 * 14400, 1, -5}[f.rng.Intn(4)])
+		}
+		return f.deliver(msg)
 	case "prove": // every listed prover proves its current challenge (keeps files alive across reward blocks)
 		k := f.c.App.StorageKeeper
 		var last M
@@ -185,7 +201,7 @@ func (f *chainFam) Apply(st M) M {
 				if string(t.root) != string(uf.Merkle) {
 					continue
 				}
-				if len(uf.Proofs) < int(uf.MaxProofs) && f.rng.Intn(2) == 0 {
+				if len(uf.Proofs) < int(uf.MaxProofs) && (len(uf.Proofs) == 0 || f.rng.Intn(2) == 0) {
 					p := f.c.Acct([]string{"p1", "p2", "p3", "p4"}[f.rng.Intn(4)])
 					if item, hl, ok := t.proof(0); ok && !uf.ContainsProver(p.S()) {
 						last = f.deliver(&stypes.MsgPostProof{Creator: p.S(), Item: item, HashList: hl, Merkle: t.root, Owner: uf.Owner, Start: uf.Start, ToProve: 0})
@@ -238,9 +254,11 @@ func (f *chainFam) Random(rng *rand.Rand) M {
 		return M{"a": "script"}
 	}
 	switch r := rng.Intn(100); {
-	case r < 55:
+	case r < 45:
 		return M{"a": "adv"}
-	case r < 70:
+	case r < 55:
+		return M{"a": "advfile"}
+	case r < 72:
 		return M{"a": "prove"}
 	}
 	return M{"a": "block"}
